@@ -2,7 +2,7 @@
     for floats), and their translation to the model's columns. *)
 From Coq Require Import NArith ZArith Bool List.
 Import ListNotations.
-Require Import MS.Base.F32 MS.Base.F64 MS.Model.Uda.
+Require Import MS.Base.F32 MS.Base.F64 MS.Model.Uda MS.Model.Candle.
 Local Open Scope Z_scope.
 
 (** a column as the harness prints it: element type + raw values (bit patterns for floats) *)
@@ -25,6 +25,31 @@ Fixpoint zlist_eqb (a b : list Z) : bool :=
   match a, b with
   | [], [] => true
   | x :: a', y :: b' => Z.eqb x y && zlist_eqb a' b'
+  | _, _ => false
+  end.
+
+
+(** candler inputs and outputs (C21, C22, C24) *)
+Record kinput := {
+  ki_epoch : list Z;
+  ki_nanos : option (list Z);
+  ki_price : list (list kcol);     (* tick: one group; candle: Open, High, Low, Close groups *)
+  ki_acc : list kcol
+}.
+
+Definition mk_input (k : kinput) : cinput :=
+  {| in_epoch := ki_epoch k; in_nanos := ki_nanos k;
+     in_price := map (map mk_col) (ki_price k); in_acc := map mk_col (ki_acc k) |}.
+
+
+Definition row_obs (r : orow) : list Z :=
+  o_epoch r :: f32_bits (o_o r) :: f32_bits (o_h r) :: f32_bits (o_l r) :: f32_bits (o_c r)
+  :: map f64_bits (o_sums r) ++ map f64_bits (o_avgs r).
+
+Fixpoint rows_eqb (a b : list (list Z)) : bool :=
+  match a, b with
+  | [], [] => true
+  | x :: a', y :: b' => zlist_eqb x y && rows_eqb a' b'
   | _, _ => false
   end.
 
